@@ -217,12 +217,64 @@ def shared_context_runs(si, n, profile, part):
             part["classes"].add("shared-context:lock_then_reg")
 
 
+def install_runs(si, profile, part):
+    """a context function that, through the handle of the context it is evaluated in, installs or replaces the very function the
+    outer program is about to call: the call (made after its arguments were evaluated) must use what is bound then"""
+    wd = common.workdir(PROP)
+    steps, plan = [], []
+    k = 0
+    for initial in ("absent", "ctx", "global"):
+        for inst_form in ("inst(1)", "inst"):
+            for shape in ("callee(%s)", "callee(2, %s)", "[%s, callee(3)]", "x = %s; callee(x)", "callee(callee0(%s))"):
+                k += 1
+                callee = "cal%dx%d" % (si, k)
+                hid = 40000 + si * 1000 + k * 10
+                fns = {"inst": {"id": hid + 1, "log": True, "probe": True, "ret": "const", "v": ["n", "5", 0], "reenter": {"act": "set_fn", "name": callee, "beh": {"id": hid + 6, "ret": "tag"}}},
+                       "callee0": {"id": hid + 2, "ret": "last"}}
+                if initial == "ctx":
+                    fns[callee] = {"id": hid + 5, "ret": "tag"}
+                elif initial == "global":
+                    steps.append({"op": "reg_fn", "name": callee, "beh": {"id": hid + 4, "ret": "tag"}})
+                    plan.append(None)
+                text = shape.replace("callee(", callee + "(").replace("%s", inst_form)
+                args = {"callee(%s)": ["5"], "callee(2, %s)": ["2", "5"], "[%s, callee(3)]": None, "x = %s; callee(x)": ["5"], "callee(callee0(%s))": ["5"]}[shape]
+                tagged = lambda a: ["l", [["n", str(hid + 6), 0]] + [["n", x, 0] for x in a]]
+                want = {"ok": tagged(args)} if args is not None else {"ok": ["l", [["n", "5", 0], tagged(["3"])]]}
+                steps.append({"op": "ctx", "id": k, "vars": {}, "fns": fns})
+                plan.append(None)
+                steps.append(dict({"op": "exec", "ctx": k, "text": text}, **({"via": "execute"} if k % 2 else {})))
+                plan.append((text, want, initial))
+    recs, events, _ = common.run_batch(steps, wd, "install-%d-%s" % (si, profile), profile, timeout=300)
+    for pl, r in zip(plan, recs):
+        if pl is None or r is None:
+            continue
+        text, want, initial = pl
+        part["evaluations"] += 1
+        part["counts"]["install_scenarios"] = part["counts"].get("install_scenarios", 0) + 1
+        blocked = any("probe" in e and not e["probe"]["lock_ok"] for e in r.get("log", []))
+        if blocked:
+            part["violations"].append({"sig": ["context-locked-during-handler", "install"], "what": "`%s`: the context is locked while the context function runs, it cannot install a function through its handle" % text, "replay": None})
+        elif r.get("res") == want:
+            part["classes"].add("install:%s:%s" % (initial, text.split("(")[0][:3]))
+        else:
+            part["violations"].append({"sig": ["installed-function-not-used", initial], "what": "`%s` (the called function was %s before; a context function evaluated as its argument installs a new one through the context handle): the outer evaluation returned %s, normal result %s" % (text, {"absent": "bound nowhere", "ctx": "bound in the context", "global": "registered globally"}[initial], json.dumps(r.get("res")), json.dumps(want)), "replay": None})
+    for kind_, detail, k_ in events:
+        if kind_ in ("deadlock", "hang", "signal"):
+            part["violations"].append({"sig": [kind_, "install"], "what": "installing a function from inside a handler: %s" % detail, "replay": None})
+        else:
+            part["inconclusive"].append("%s: %s" % (kind_, detail))
+
+
 def run_shard(desc):
     si, scns, profile = desc
     wd = common.workdir(PROP)
     part = {"evaluations": 0, "classes": set(), "violations": [], "samples": [], "abstained": 0, "inconclusive": [], "counts": {"scenarios": 0, "reentrant_calls_performed": 0, "lock_probes": 0}}
     if scns == "shared":
         shared_context_runs(si, 3, profile, part)
+        part["classes"] = sorted(part["classes"])
+        return part
+    if scns == "install":
+        install_runs(si, profile, part)
         part["classes"] = sorted(part["classes"])
         return part
     steps, index = [], []
@@ -274,6 +326,7 @@ def run(rep, tier):
         shards.append((100 + i, scns[i::nsh], "release"))
     for i in range(8 if tier == "quick" else 64):
         shards.append((900 + i, "shared", "release" if i % 2 else "verifdbg"))
+    shards += [(950, "install", "verifdbg"), (951, "install", "release")]
     for part in common.pmap(run_shard, shards):
         rep.merge(part)
     rep.extra["exhaustive"] = True
